@@ -42,7 +42,7 @@ Lemma tok_local c t s th ch s1 th1 ch1 site wake j0 :
   dlt (m_hard j0) s th s1 th1 + dlt (m_soft j0) s th s1 th1 = g_res (gate_at s j0) - g_res (gate_at s1 j0) /\
   (dlt (m_hard j0) s th s1 th1 <= 0 \/ (dlt (m_hard j0) s th s1 th1 = 1 /\ 0 < g_res (gate_at s j0))).
 Proof.
-  intros H0 [WL WB] WT J0 H. unfold wf_thread in *. unfold dlt. step_cases H th; wf_fin; subst.
+  intros H0 [[WL WG] WB] WT J0 H. unfold wf_thread in *. unfold dlt. step_cases H th; wf_fin; subst.
   all: acct_pre Hst.
   all: rewrite ?(gatesw_zero (m_hard j0)), ?(gatesw_zero (m_soft j0)) by reflexivity.
   all: rewrite ?(strandw_zero (m_hard j0)), ?(strandw_zero (m_soft j0)) by (intros; reflexivity).
@@ -163,7 +163,7 @@ Lemma gen_local c t s th ch s1 th1 ch1 site wake :
   (0 < nstages c)%nat -> wf_shared c s -> wf_thread c th ->
   mstep_thread c t s th ch = Some (s1, th1, ch1, site, wake) -> dlt (m_gen c) s th s1 th1 <= 0.
 Proof.
-  intros H0 [WL WB] WT H. unfold wf_thread in *. unfold dlt. step_cases H th; wf_fin; subst.
+  intros H0 [[WL WG] WB] WT H. unfold wf_thread in *. unfold dlt. step_cases H th; wf_fin; subst.
   all: acct_pre Hst.
   all: rewrite ?(gatesw_zero (m_gen c)) by reflexivity.
   all: rewrite ?(strandw_zero (m_gen c)) by (intros; reflexivity).
